@@ -107,6 +107,9 @@ pub enum Op {
     RefreshHosts { ty: String },
     RefreshHostname { host: String },
     Forget { ty: String },
+    DropIntf { ifx: u32 },
+    DropAddrs { ifx: u32, v4: bool, v6: bool },
+    Known { name: String, ty: u16 },
 }
 
 const IFN: [&str; 4] = ["", "lo", "eth0", "wlan0"];
@@ -196,6 +199,33 @@ pub fn run(scen: Value, ops: Vec<(u64, Op)>) -> Vec<Value> {
                 line["k"] = json!("forget");
                 line["ty"] = json!(ty);
             }
+            Op::DropIntf { ifx } => {
+                let (removed, modified) = c.remove_intf(IFN[(ifx as usize).min(3)], ifx);
+                line["k"] = json!("dropintf");
+                line["idx"] = json!(ifx);
+                line["removed"] = json!(removed.into_iter().map(|(t, i)| json!([t, i])).collect::<Vec<_>>());
+                line["modified"] = json!(modified);
+            }
+            Op::DropAddrs { ifx, v4, v6 } => {
+                c.remove_addrs(ifx, v4, v6);
+                line["k"] = json!("dropaddrs");
+                line["idx"] = json!(ifx);
+                line["v4"] = json!(v4);
+                line["v6"] = json!(v6);
+            }
+            Op::Known { name, ty } => {
+                let ka = c.known_answers(&name, ty, now);
+                let m = match ty {
+                    wire::T_PTR => "ptr",
+                    wire::T_SRV => "srv",
+                    wire::T_TXT => "txt",
+                    _ => "addr",
+                };
+                line["k"] = json!("known");
+                line["m"] = json!(m);
+                line["key"] = json!(if m == "addr" { lower(&name) } else { name.clone() });
+                line["known"] = json!(ka.iter().map(|v| { let (t, rk, _) = view_key(v); json!([t, rk]) }).collect::<Vec<_>>());
+            }
         }
         let (recs, keys, nsub) = dump_json(&c);
         line["dump"] = recs;
@@ -265,6 +295,10 @@ pub fn scenario_case(id: u64, case: &Value) -> Vec<Value> {
             "rhosts" => Op::RefreshHosts { ty: TY.into() },
             "rhostname" => Op::RefreshHostname { host: host(1, 0) },
             "forget" => Op::Forget { ty: if o["sub"].as_bool().unwrap_or(false) { SUBTY.into() } else { TY.into() } },
+            "dropintf" => Op::DropIntf { ifx: 2 },
+            "dropaddrs" => Op::DropAddrs { ifx: 2, v4: true, v6: false },
+            "knownptr" => Op::Known { name: TY.into(), ty: wire::T_PTR },
+            "knownaddr" => Op::Known { name: host(1, 0), ty: wire::T_A },
             _ => continue,
         };
         ops.push((dt, op));
@@ -294,7 +328,8 @@ pub fn scenario_rand(id: u64, seed: u64, thorough: bool) -> Vec<Value> {
             2 => r.range(700, 1300),
             3 => 1000,
             4 => r.range(1500, 4000),
-            5 => 800 * *r.pick(&ttls) as u64 % 20_000,
+            // exactly at a boundary of a record received in the previous operation: half-life, the refresh marks, the end
+            5 => (*r.pick(&[500u64, 800, 850, 900, 950, 1000]) * *r.pick(&ttls) as u64).min(130_000),
             6 => r.range(1, 12) * 250,
             _ => r.range(0, 2000),
         };
@@ -339,13 +374,15 @@ pub fn scenario_rand(id: u64, seed: u64, thorough: bool) -> Vec<Value> {
                     Op::RefreshHostname { host: host(r.range(1, 2), 0) }
                 }
             }
-            _ => {
-                if r.chance(1, 3) {
-                    Op::Forget { ty: if r.chance(1, 3) { SUBTY.into() } else { TY.into() } }
-                } else {
-                    Op::Evict
-                }
-            }
+            _ => match r.below(8) {
+                0 | 1 => Op::Forget { ty: if r.chance(1, 3) { SUBTY.into() } else { TY.into() } },
+                2 => Op::DropIntf { ifx: if r.chance(1, 2) { 3 } else { 2 } },
+                3 => Op::DropAddrs { ifx: if r.chance(1, 2) { 3 } else { 2 }, v4: r.chance(2, 3), v6: r.chance(1, 2) },
+                4 => Op::Known { name: if r.chance(1, 4) { SUBTY.into() } else { TY.into() }, ty: wire::T_PTR },
+                5 => Op::Known { name: host(r.range(1, 2), 0), ty: if r.chance(1, 2) { wire::T_A } else { wire::T_AAAA } },
+                6 => Op::Known { name: inst(r.range(1, 3)), ty: if r.chance(1, 2) { wire::T_SRV } else { wire::T_TXT } },
+                _ => Op::Evict,
+            },
         };
         ops.push((dt, op));
     }
